@@ -469,6 +469,10 @@ class Evaluator:
             if isinstance(v, Obj) and v.resolver is not None:
                 return v.resolver(v, "__len__")()
             return _len(v)
+        if d in ("list", "tuple", "iter") and len(n.args) == 1 and not n.keywords:
+            v = self.eval(n.args[0], env)
+            vs = self.iterate(v)
+            return tuple(vs) if d == "tuple" else list(vs)
         if d == "super" and "__super__" in self.funcs:
             return self.funcs["__super__"](env.get("__self__"), env.get("__owner__"))
         f = None
